@@ -3,7 +3,9 @@ package main
 import (
 	_ "verifmc/props/c01"
 	_ "verifmc/props/c02"
+	_ "verifmc/props/c03"
 	_ "verifmc/props/c04"
+	_ "verifmc/props/c05"
 	_ "verifmc/props/c06"
 	_ "verifmc/props/c07"
 	_ "verifmc/props/c08"
